@@ -299,14 +299,25 @@ func runCase(c Case) (msg string, p prediction) {
 			return fmt.Sprintf("expected result %s, got %+v (error %v)", m.Result, r, r.Error), p
 		}
 	case "resource":
-		if !r.HasResource() || !strings.Contains(p.data, `"`+string(r.Resource)+`"`) {
-			return fmt.Sprintf("expected resource response %s, got %+v", p.data, r), p
+		var m struct {
+			Resource struct {
+				RID string `json:"rid"`
+			} `json:"resource"`
+		}
+		_ = json.Unmarshal([]byte(p.data), &m)
+		if !r.HasResource() || string(r.Resource) != m.Resource.RID {
+			return fmt.Sprintf("expected the resource response %s (resource id %q), got %+v", p.data, m.Resource.RID, r), p
 		}
 	case "error":
 		var m struct{ Error *res.Error }
 		_ = json.Unmarshal([]byte(p.data), &m)
 		if !r.HasError() || r.Error.Code != m.Error.Code || r.Error.Message != m.Error.Message {
 			return fmt.Sprintf("expected error %+v, got %+v", m.Error, r.Error), p
+		}
+		wd, _ := json.Marshal(m.Error.Data)
+		gd, _ := json.Marshal(r.Error.Data)
+		if !gen.JSONEqual(wd, gd) {
+			return fmt.Sprintf("expected the error's data %s, got %s (response %s)", wd, gd, p.data), p
 		}
 	case "invalid", "empty":
 		if code != res.CodeInternalError {
@@ -341,9 +352,10 @@ func genCase() *rapid.Generator[Case] {
 					m.Data = m.Data[:len(m.Data)-1] + rapid.SampledFrom([]string{`,"meta":{"status":201}}`, `,"meta":{"header":{"X-A":["b"]}}}`, `,"future":true}`}).Draw(t, "extramember")
 				}
 			case "resource":
-				m.Data = `{"resource":{"rid":"` + rapid.SampledFrom([]string{"svc.a", "svc.b.c?x=1"}).Draw(t, "rid") + `"}}`
+				// (a Go service writes & < > as \u0026 ...; other encoders escape the solidus)
+				m.Data = `{"resource":{"rid":` + rapid.SampledFrom([]string{`"svc.a"`, `"svc.b.c?x=1"`, `"svc.b?a=1\u0026b=2"`, `"svc.a\/b"`, `"svc.\u0061"`, `"svc.q?x=\u003c1\u003e"`}).Draw(t, "rid") + `}}`
 			case "error":
-				m.Data = `{"error":{"code":"` + rapid.SampledFrom([]string{"system.notFound", "custom.x"}).Draw(t, "code") + `","message":"m"` + rapid.SampledFrom([]string{"", "", `,"data":{"a":1}`, `,"extra":1`}).Draw(t, "errextra") + `}` + rapid.SampledFrom([]string{"", "", `,"meta":{"status":404}`}).Draw(t, "errmeta") + `}`
+				m.Data = `{"error":{"code":"` + rapid.SampledFrom([]string{"system.notFound", "custom.x"}).Draw(t, "code") + `","message":"` + rapid.SampledFrom([]string{"m", "Not found", "Invalid parameters"}).Draw(t, "errmsg") + `"` + rapid.SampledFrom([]string{"", "", `,"data":{"a":1}`, `,"extra":1`, `,"data":"why"`}).Draw(t, "errextra") + `}` + rapid.SampledFrom([]string{"", "", `,"meta":{"status":404}`}).Draw(t, "errmeta") + `}`
 			case "invalid":
 				m.Data = rapid.SampledFrom([]string{`{"res`, `[]`, `{}`, ` `, `42`, `{"result":}`, `{"result":1}{"result":2}`, `{"result":{"n":1}} trailing`, `{"resource":{"rid":"a.b"}}}`, `{"error":{"code":"system.notFound","message":"m"}},`, "\xef\xbb\xbf{\"result\":1}", "\xc3\xa9", "\xff", "\u00a0{\"result\":1}"}).Draw(t, "inv")
 			case "empty":
@@ -439,6 +451,13 @@ func TestRealNATS(t *testing.T) {
 			r.Timeout(20 * time.Second)
 			time.Sleep(1200 * time.Millisecond)
 			r.OK(map[string]string{"kind": "ext"})
+		case "many":
+			// a keep-alive style handler: a good number of pre-responses before the answer
+			for k := 0; k < 9; k++ {
+				r.Timeout(20 * time.Second)
+				time.Sleep(20 * time.Millisecond)
+			}
+			r.OK(map[string]string{"kind": "many"})
 		case "ok":
 			r.OK(42)
 		case "err":
@@ -466,7 +485,7 @@ func TestRealNATS(t *testing.T) {
 	fc := &faultConn{Conn: cnc}
 	base := cnc.NumSubscriptions()
 	n := evid.Pick(40, 1000)
-	kinds := []string{"ok", "err", "res", "ext", "silent", "pubfail", "subfail", "badreq", "nosvc"}
+	kinds := []string{"ok", "err", "res", "ext", "silent", "pubfail", "subfail", "badreq", "nosvc", "many"}
 	for i := 0; i < n; i++ {
 		k := kinds[i%len(kinds)]
 		fc.failPublish, fc.failSubscribe = k == "pubfail", k == "subfail"
@@ -509,6 +528,10 @@ func TestRealNATS(t *testing.T) {
 			// the handler extends the deadline to 20s and replies after 1.2s > the 1s initial timeout
 			if !r.HasResult() || exts != 1 {
 				bad = fmt.Sprintf("expected the reply after a deadline extension (extensions seen %d), got %+v (%v)", exts, r, r.Error)
+			}
+		case "many":
+			if !r.HasResult() {
+				bad = fmt.Sprintf("expected the reply after nine pre-responses (extensions seen %d), got %+v (%v)", exts, r, r.Error)
 			}
 		case "silent", "nosvc":
 			if !r.HasError() || r.Error.Code != res.CodeTimeout {
